@@ -12,7 +12,7 @@ from layout import q
 ID = 'C09'
 GENMODS = ['gen_c09', 'gen_forms', 'gen_c12', 'gen_store']
 TARGET = 'props/C09.vo'
-PROOF_FILES = ['proof/C09Syntax.v', 'proof/C09Lexer.v', 'proof/IniProofs.v', 'proof/C09Ini.v', 'proof/C09.v', 'props/C09.v']
+PROOF_FILES = ['proof/C09Syntax.v', 'proof/C09Lexer.v', 'proof/IniProofs.v', 'proof/IniFile.v', 'proof/C09Ini.v', 'proof/C09.v', 'props/C09.v']
 AXIOMS = ['reals', 'classic', 'primitives']
 TRUSTED = [
     'Coq 8.16.1 kernel; the syntax and formula theorems are axiom-free; the modifier theorems live over R (Reals axioms, classic, funext via Coquelicot imports); primitive axioms only through interval in the correspondence files',
